@@ -2,7 +2,8 @@
 
 Even indices: one bigWig (written by the bedgraphtobigwig binary from a generated bedGraph on small
 chromosomes), one BED region list, one (name mode, --min-max) choice; bigwigaverageoverbed is run with
--t N for every N in {1,2,3,4,8,16}.  Oracle: exactly one output row per input row in input order, name
+-t N for N = 1, 16 and four more thread counts drawn per case from 2..15 (every count is seen across cases;
+how the BED is cut depends on size mod N).  Oracle: exactly one output row per input row in input order, name
 column as requested, size / covered bases / sum / mean0 / mean (/ min / max) within 5.01e-4 of a per-base
 Python model built from the float32 values that were stored (the tool prints {:.3}), NaN mean/min/max when
 nothing is covered, byte-identical output for every N.  A name column beyond the columns of the file must
@@ -24,7 +25,7 @@ import props
 import pyleg
 
 KIND = "c17tool"
-N_CASES = {"quick": 240, "thorough": 2400}  # half averageoverbed cases (6 invocations each), half valuesoverbed
+N_CASES = {"quick": 600, "thorough": 4000}  # half averageoverbed cases (6 invocations each), half valuesoverbed
 THREADS = [1, 2, 3, 4, 8, 16]
 TOL = 5.01e-4
 CHROMS = ["chr1", "chr10", "chr2", "chrX", "a", "Z", "chrM"]
@@ -285,7 +286,8 @@ def _avg_case(c, rng, seed, tier, index, cwd):
         return d
 
     outputs = {}
-    for n in THREADS:
+    threads = [1] + sorted(rng.sample(range(2, 16), 4)) + [16]
+    for n in threads:
         out = "out_t%d.tsv" % n
         opts = ["-t", str(n)] + nargs + (["--min-max"] if minmax else [])
         pos = ["in.bw", "regions.bed", out]
